@@ -453,7 +453,9 @@ double cmb_timeseries_median(const struct cmb_timeseries *tsp)
     }
 
     const double wmid = 0.5 * wsum;
-    double r = 0.0;
+
+    /* The smallest value is the answer if it alone covers half the weight */
+    double r = ((un > 0u) && (wcum[0] > wmid)) ? dsp->xa[0] : 0.0;
      for (uint64_t ui = 0u; ui < un - 1; ui++) {
         if ((wcum[ui] <= wmid) && (wcum[ui + 1] > wmid)) {
             cmb_assert_debug(wcum[ui + 1] > wcum[ui]);
@@ -499,9 +501,10 @@ void cmb_timeseries_fivenum_print(const struct cmb_timeseries *tsp,
     const double w050 = 0.50 * wsum;
     const double w075 = 0.75 * wsum;
 
-    double x025 = 0.0;
-    double x050 = 0.0;
-    double x075 = 0.0;
+    /* The smallest value is the answer if it alone covers that much weight */
+    double x025 = ((un > 0u) && (wcum[0] > w025)) ? dsp->xa[0] : 0.0;
+    double x050 = ((un > 0u) && (wcum[0] > w050)) ? dsp->xa[0] : 0.0;
+    double x075 = ((un > 0u) && (wcum[0] > w075)) ? dsp->xa[0] : 0.0;
     for (uint64_t ui = 0u; ui < un - 1; ui++) {
         if ((wcum[ui] <= w025) && (wcum[ui + 1] > w025)) {
             cmb_assert_debug(wcum[ui + 1] > wcum[ui]);
